@@ -86,8 +86,24 @@ def encodable(s):
         return False
 
 
+THOROUGH = False
+
+
 def cases():
     """(label, program)"""
+    if THOROUGH:
+        # every character at every position of a longer value / name / reason, and triples of dangerous strings
+        for c in CHARS:
+            for i in range(0, 7):
+                yield "value", {"kind": "single", "status": "200 OK", "headers": [("X-A", "abcdef"[:i] + c + "abcdef"[i:]), ("X-Z", "z")]}
+                yield "name", {"kind": "single", "status": "200 OK", "headers": [("X-Name"[:i] + c + "X-Name"[i:], "v"), ("X-Z", "z")]}
+                yield "reason", {"kind": "single", "status": "200 " + "Reason"[:i] + c + "Reason"[i:], "headers": [("X-Z", "z")]}
+            yield "value", {"kind": "single", "status": "200 OK", "headers": [("X-A", "a"), ("X-B", "b" + c), ("X-Z", "z")]}
+        for a in DANGER:
+            for b in DANGER:
+                for d in DANGER:
+                    yield "value-triple", {"kind": "single", "status": "200 OK", "headers": [("X-A", "p" + a + "q" + b + "r" + d), ("X-Z", "z")]}
+                    yield "reason-triple", {"kind": "single", "status": "200 " + a + "O" + b + "K" + d, "headers": [("X-Z", "z")]}
     for c in CHARS:
         for pos in ("start", "middle", "end"):
             yield "value", {"kind": "single", "status": "200 OK", "headers": [("X-A", place("ab", c, pos)), ("X-Z", "z")]}
@@ -191,11 +207,12 @@ def judge(label, prog, o, ver):
 
 
 WORKERS = [("sync", {}), ("gthread", {"keepalive": 0}), ("async", {"keepalive": 0}), ("gthread", {"keepalive": 2, "worker_connections": 5, "threads": 1})]
-NSH = 4
+NSH = 8
 
 
 def _task(t):
-    wi, ver, shard = t
+    global THOROUGH
+    THOROUGH, wi, ver, shard = t
     kind, kw = WORKERS[wi]
     app = App()
     b = bench.Bench(kind, kw, app)
@@ -222,7 +239,9 @@ def _task(t):
 
 
 def run(ctx):
-    tasks = [(wi, ver, s) for wi in range(len(WORKERS)) for ver in ("1.1", "1.0") for s in range(NSH)]
+    global THOROUGH
+    THOROUGH = ctx.thorough
+    tasks = [(ctx.thorough, wi, ver, s) for wi in range(len(WORKERS)) for ver in ("1.1", "1.0") for s in range(NSH)]
     random.Random(ctx.seed).shuffle(tasks)
     res = par.pmap(_task, tasks)
     res.sort(key=lambda r: r["key"])
